@@ -19,6 +19,7 @@ pub static N_A: AtomicUsize = AtomicUsize::new(0);
 pub static N_B: AtomicUsize = AtomicUsize::new(0);
 pub static N_C: AtomicUsize = AtomicUsize::new(0);
 pub static N_D: AtomicUsize = AtomicUsize::new(0);
+pub static N_E: AtomicUsize = AtomicUsize::new(0);
 pub static UNIT_SINK: AtomicUsize = AtomicUsize::new(0);
 pub static PANICS: AtomicUsize = AtomicUsize::new(0);
 
@@ -68,6 +69,21 @@ fn site_d() -> (FuncPtr, CallCountVerifier) {
     )
 }
 
+/// the user's `returns` expression itself panics for one argument value: the call was admitted
+/// (and stays counted), the panic is the user's
+fn site_e() -> (FuncPtr, CallCountVerifier) {
+    injectorpp::fake!(
+        func_type: fn(x: u32) -> u32,
+        returns: {
+            if x == 55 {
+                panic!("boom in returns");
+            }
+            x + 7300
+        },
+        times: crate::count::N_E.load(std::sync::atomic::Ordering::SeqCst)
+    )
+}
+
 #[derive(Serialize, Deserialize, Clone, Debug, PartialEq)]
 pub struct CLifetime {
     pub n: usize,
@@ -94,7 +110,7 @@ pub struct CountScenario {
 
 pub fn generate(profile: &str, seed: u64, index: u64) -> CountScenario {
     let mut rng = Rng::new(simos::rng::scenario_seed(seed, &format!("N/count/{profile}"), index));
-    let site = (*rng.pick(&["a", "a", "b", "c", "d"])).to_string();
+    let site = (*rng.pick(&["a", "a", "b", "c", "d", "e"])).to_string();
     let n_l = if profile == "C07" { 2 + rng.below(5) as usize } else { 1 + rng.below(3) as usize };
     let mut classes = vec![format!("site-{site}")];
     let mut lifetimes = Vec::new();
@@ -102,6 +118,14 @@ pub fn generate(profile: &str, seed: u64, index: u64) -> CountScenario {
         let n = rng.below(7) as usize;
         let k = rng.below(n as u64 + 3) as usize;
         let mut calls: Vec<u32> = (0..k).map(|_| rng.below(100) as u32).collect();
+        if site == "e" {
+            // some admitted calls whose `returns` expression panics
+            for c in calls.iter_mut() {
+                if rng.chance(1, 3) {
+                    *c = 55;
+                }
+            }
+        }
         let nm = rng.below(4) as usize;
         let has_when = site == "a" || site == "d";
         if has_when {
@@ -157,6 +181,7 @@ pub fn execute(sc: &CountScenario, sh: &Shared) -> Value {
     };
     let mut calls_made = 0u64;
     let mut over_calls = 0u64;
+    let mut user_panics = 0u64;
     let mut rejected = 0u64;
     let mut exit_panics_seen = 0u64;
     let has_when = sc.site == "a" || sc.site == "d";
@@ -169,6 +194,7 @@ pub fn execute(sc: &CountScenario, sh: &Shared) -> Value {
             "a" => &N_A,
             "b" => &N_B,
             "c" => &N_C,
+            "e" => &N_E,
             _ => &N_D,
         };
         nstat.store(lt.n, Ordering::SeqCst);
@@ -176,6 +202,7 @@ pub fn execute(sc: &CountScenario, sh: &Shared) -> Value {
             "a" => site_a(),
             "b" => site_b(),
             "c" => site_c(),
+            "e" => site_e(),
             _ => site_d(),
         };
         if sc.zero_counter {
@@ -185,7 +212,7 @@ pub fn execute(sc: &CountScenario, sh: &Shared) -> Value {
         }
         let mut inj = InjectorPP::new();
         let target = match sc.site.as_str() {
-            "a" | "b" => injectorpp::func!(fn (ct_add)(u32) -> u32),
+            "a" | "b" | "e" => injectorpp::func!(fn (ct_add)(u32) -> u32),
             "c" => injectorpp::func!(fn (ct_unit)(u32)),
             _ => injectorpp::func!(fn (ct_two)(u32, &mut u32) -> u32),
         };
@@ -201,7 +228,7 @@ pub fn execute(sc: &CountScenario, sh: &Shared) -> Value {
             let sink_before = UNIT_SINK.load(Ordering::SeqCst);
             let mut out_y = 5u32;
             let res = catch_unwind(AssertUnwindSafe(|| match sc.site.as_str() {
-                "a" | "b" => black_box(ct_add as fn(u32) -> u32)(*arg) as u64,
+                "a" | "b" | "e" => black_box(ct_add as fn(u32) -> u32)(*arg) as u64,
                 "c" => {
                     black_box(ct_unit as fn(u32))(*arg);
                     0
@@ -212,6 +239,7 @@ pub fn execute(sc: &CountScenario, sh: &Shared) -> Value {
             let want_val: u64 = match sc.site.as_str() {
                 "a" => *arg as u64 + 7000,
                 "b" => *arg as u64 + 7100,
+                "e" => *arg as u64 + 7300,
                 "c" => 0,
                 _ => *arg as u64 + 7200,
             };
@@ -230,6 +258,12 @@ pub fn execute(sc: &CountScenario, sh: &Shared) -> Value {
                     if sc.site == "c" && UNIT_SINK.load(Ordering::SeqCst) != sink_before {
                         v("original-body-ran-while-faked", &["C06"], format!("{what}: the original unit function ran"));
                     }
+                    m += 1;
+                }
+                (Err(p), true) if sc.site == "e" && *arg == 55 && m < lt.n && panic_msg(p).contains("boom in returns") => {
+                    // admitted, counted, and the user's own expression panicked: budget consumed
+                    mixd(3);
+                    user_panics += 1;
                     m += 1;
                 }
                 (Err(p), true) => {
@@ -315,6 +349,9 @@ pub fn execute(sc: &CountScenario, sh: &Shared) -> Value {
     }
     if rejected > 0 {
         faults.insert("rejected_argument_panics".into(), json!(rejected));
+    }
+    if user_panics > 0 {
+        faults.insert("panic_inside_returns_expression_of_admitted_call".into(), json!(user_panics));
     }
     if exit_panics_seen > 0 {
         faults.insert("verification_panics_at_scope_exit".into(), json!(exit_panics_seen));
